@@ -185,6 +185,8 @@ type halfConn struct {
 
 	level         QUICEncryptionLevel // current QUIC encryption level
 	trafficSecret []byte              // current TLS 1.3 traffic secret
+
+	pad13 int // harness: padding zeros for the next TLS 1.3 record
 }
 
 type permanentError struct {
@@ -525,8 +527,16 @@ func (hc *halfConn) encrypt(record, payload []byte, rand io.Reader) ([]byte, err
 			// Encrypt the actual ContentType and replace the plaintext one.
 			record = append(record, record[0])
 			record[0] = byte(recordTypeApplicationData)
+			// harness: RFC 8446 section 5.4 record padding (zeros after the content type)
+			pad := hc.pad13
+			if pad > maxPlaintext-len(payload) {
+				pad = maxPlaintext - len(payload)
+			}
+			for i := 0; i < pad; i++ {
+				record = append(record, 0)
+			}
 
-			n := len(payload) + 1 + c.Overhead()
+			n := len(payload) + 1 + pad + c.Overhead()
 			record[3] = byte(n >> 8)
 			record[4] = byte(n)
 
@@ -1004,6 +1014,25 @@ func (c *Conn) writeRecordLocked(typ recordType, data []byte) (int, error) {
 		if maxPayload := c.maxPayloadSizeForWrite(typ); m > maxPayload {
 			m = maxPayload
 		}
+		if byz := c.config.Byz; byz != nil && !c.isClient && typ == recordTypeApplicationData && c.out.cipher != nil {
+			// harness: legal record shapes a compliant peer may choose
+			if byz.EmptyRecords != nil {
+				for k := byz.EmptyRecords(); k > 0; k-- {
+					if err := c.writeEmptyRecordLocked(); err != nil {
+						return n, err
+					}
+				}
+			}
+			if byz.RecordSplit != nil {
+				if k := byz.RecordSplit(m); k > 0 && k < m {
+					m = k
+				}
+			}
+		}
+		c.out.pad13 = 0
+		if byz := c.config.Byz; byz != nil && !c.isClient && byz.RecordPad != nil && c.out.cipher != nil && c.vers == VersionTLS13 {
+			c.out.pad13 = byz.RecordPad(m)
+		}
 
 		_, outBuf = sliceForAppend(outBuf[:0], recordHeaderLen)
 		outBuf[0] = byte(typ)
@@ -1041,6 +1070,27 @@ func (c *Conn) writeRecordLocked(typ recordType, data []byte) (int, error) {
 	}
 
 	return n, nil
+}
+
+// writeEmptyRecordLocked (harness) writes one zero-length application_data record, padded
+// under TLS 1.3 if RecordPad says so.
+func (c *Conn) writeEmptyRecordLocked() error {
+	vers := c.vers
+	if vers == VersionTLS13 {
+		vers = VersionTLS12
+	}
+	rec := []byte{byte(recordTypeApplicationData), byte(vers >> 8), byte(vers), 0, 0}
+	c.out.pad13 = 0
+	if byz := c.config.Byz; byz != nil && byz.RecordPad != nil && c.vers == VersionTLS13 {
+		c.out.pad13 = byz.RecordPad(0)
+	}
+	rec, err := c.out.encrypt(rec, nil, c.config.rand())
+	c.out.pad13 = 0
+	if err != nil {
+		return err
+	}
+	_, err = c.write(rec)
+	return err
 }
 
 // writeHandshakeRecord writes a handshake message to the connection and updates
